@@ -395,3 +395,151 @@ func (v *VerifGen) State() VerifGenState {
 }
 
 var _ = utils.DefaultLogger
+
+// ---------------------------------------------------------------------------------
+// packetHandlerMap (transport.go) and the closed-connection stand-ins (closed_conn.go)
+// ---------------------------------------------------------------------------------
+
+// verifConn stands for a live connection registered with the transport.
+type verifConn struct {
+	id  int
+	got int
+}
+
+func (c *verifConn) handlePacket(receivedPacket)                     { c.got++ }
+func (c *verifConn) destroy(error)                                   {}
+func (c *verifConn) closeWithTransportError(qerr.TransportErrorCode) {}
+
+// VerifRouting drives the real packetHandlerMap of a Transport that owns no socket.
+// Timers (time.AfterFunc in ReplaceWithClosed) run on the clock of the caller: the
+// harness calls everything inside a testing/synctest bubble.
+type VerifRouting struct {
+	t      *Transport
+	m      *packetHandlerMap
+	conns  map[int]*verifConn
+	locals map[*closedLocalConn]int
+}
+
+func VerifNewRouting() *VerifRouting {
+	t := &Transport{}
+	t.handlers = make(map[protocol.ConnectionID]packetHandler)
+	t.resetTokens = make(map[protocol.StatelessResetToken]packetHandler)
+	t.closeQueue = make(chan closePacket, 4)
+	t.logger = utils.DefaultLogger
+	return &VerifRouting{t: t, m: (*packetHandlerMap)(t), conns: map[int]*verifConn{}, locals: map[*closedLocalConn]int{}}
+}
+
+func (v *VerifRouting) conn(n int) *verifConn {
+	c, ok := v.conns[n]
+	if !ok {
+		c = &verifConn{id: n}
+		v.conns[n] = c
+	}
+	return c
+}
+
+func (v *VerifRouting) Add(cid []byte, n int) bool {
+	return v.m.Add(protocol.ParseConnectionID(cid), v.conn(n))
+}
+
+func (v *VerifRouting) AddWithConnID(clientDest, newID []byte, n int) bool {
+	return v.m.AddWithConnID(protocol.ParseConnectionID(clientDest), protocol.ParseConnectionID(newID), v.conn(n))
+}
+
+func (v *VerifRouting) Remove(cid []byte) { v.m.Remove(protocol.ParseConnectionID(cid)) }
+
+func (v *VerifRouting) ReplaceWithClosed(ids [][]byte, local bool, expiry int64) {
+	cs := make([]protocol.ConnectionID, len(ids))
+	for i, b := range ids {
+		cs[i] = protocol.ParseConnectionID(b)
+	}
+	var pkt []byte
+	if local {
+		pkt = []byte{0x1c, 0, 0, 0}
+	}
+	v.m.ReplaceWithClosed(cs, pkt, time.Duration(expiry))
+	// number the local stand-ins in creation order (all IDs of one call share one)
+	if local {
+		idx := len(v.locals)
+		for _, c := range cs {
+			if h, ok := v.t.handlers[c].(*closedLocalConn); ok {
+				if _, seen := v.locals[h]; !seen {
+					v.locals[h] = idx
+				}
+			}
+		}
+		if len(cs) == 0 {
+			v.locals[&closedLocalConn{}] = idx // keeps the numbering aligned with the calls
+		}
+	}
+}
+
+func (v *VerifRouting) AddResetToken(tok [16]byte, n int) { v.m.AddResetToken(tok, v.conn(n)) }
+func (v *VerifRouting) RemoveResetToken(tok [16]byte)     { v.m.RemoveResetToken(tok) }
+
+// kind: 0 = not routed, 1 = live connection (ref = its number), 2 = closedLocalConn
+// (ref = creation index), 3 = closedRemoteConn, 9 = something else.
+func (v *VerifRouting) classify(h packetHandler, ok bool) (kind, ref int) {
+	if !ok {
+		return 0, 0
+	}
+	switch x := h.(type) {
+	case *verifConn:
+		return 1, x.id
+	case *closedLocalConn:
+		return 2, v.locals[x]
+	case *closedRemoteConn:
+		return 3, 0
+	}
+	return 9, 0
+}
+
+func (v *VerifRouting) Lookup(cid []byte) (kind, ref int) {
+	h, ok := v.m.Get(protocol.ParseConnectionID(cid))
+	return v.classify(h, ok)
+}
+
+// Deliver hands one packet to whatever the map routes cid to, exactly as
+// Transport.handlePacket does after the lookup, and reports how many CONNECTION_CLOSE
+// retransmissions were queued by it.
+func (v *VerifRouting) Deliver(cid []byte) (kind, ref, sent int) {
+	h, ok := v.m.Get(protocol.ParseConnectionID(cid))
+	kind, ref = v.classify(h, ok)
+	if ok {
+		h.handlePacket(receivedPacket{})
+	}
+	for {
+		select {
+		case <-v.t.closeQueue:
+			sent++
+			continue
+		default:
+		}
+		break
+	}
+	return
+}
+
+type VerifRoute struct {
+	CID       []byte
+	Kind, Ref int
+}
+
+func (v *VerifRouting) Snapshot() (routes []VerifRoute, toks [][16]byte, tokConn []int) {
+	v.t.mutex.Lock()
+	defer v.t.mutex.Unlock()
+	for c, h := range v.t.handlers {
+		k, r := v.classify(h, true)
+		routes = append(routes, VerifRoute{CID: append([]byte{}, c.Bytes()...), Kind: k, Ref: r})
+	}
+	sort.Slice(routes, func(i, j int) bool { return string(routes[i].CID) < string(routes[j].CID) })
+	for t := range v.t.resetTokens {
+		toks = append(toks, t)
+	}
+	sort.Slice(toks, func(i, j int) bool { return string(toks[i][:]) < string(toks[j][:]) })
+	for _, t := range toks {
+		_, r := v.classify(v.t.resetTokens[t], true)
+		tokConn = append(tokConn, r)
+	}
+	return
+}
